@@ -192,11 +192,60 @@ type vMonC16 struct {
 
 func (m *vMonC16) AfterTx(h *vHist, o *vTxObs) {
 	kind := vKindOf(o)
+	// Events of one tx come in one segment per message, each introduced by
+	// the SDK's own "message" event.  Known finding (D14): the akash message
+	// handlers do not start a fresh event manager per message, so the segment
+	// of message i begins with a repetition of the akash events of messages
+	// 1..i-1.  That repetition is reported under its own rule and removed, so
+	// that every other rule judges the events each message really emitted.
 	var akash []abci.Event
-	for _, e := range o.Res.Events {
-		if e.Type == sdkutil.EventTypeMessage {
-			akash = append(akash, e)
+	{
+		var prevSeg, seg []abci.Event
+		flush := func() {
+			if len(prevSeg) > 0 && len(seg) >= len(prevSeg) {
+				rep := true
+				for i := range prevSeg {
+					if vEventString(prevSeg[i]) != vEventString(seg[i]) {
+						rep = false
+						break
+					}
+				}
+				if rep {
+					if o.OK {
+						h.Violation("event-emitted-exactly-once", "multi-message-tx-repeats-events-of-earlier-messages",
+							fmt.Sprintf("%s: the events of a later message repeat the %d marketplace event(s) already emitted by the earlier message(s) of the same tx, e.g. %s", kind, len(prevSeg), vEventString(prevSeg[0])))
+					}
+					m.res.Count("multi_message_repetitions_removed", 1)
+					akash = append(akash, seg[len(prevSeg):]...)
+					prevSeg = seg
+					seg = nil
+					return
+				}
+			}
+			akash = append(akash, seg...)
+			if len(seg) > 0 {
+				prevSeg = seg
+			}
+			seg = nil
 		}
+		for _, e := range o.Res.Events {
+			if e.Type == sdk.EventTypeMessage {
+				isMarker := false
+				for _, a := range e.Attributes {
+					if string(a.Key) == sdk.AttributeKeyAction && len(e.Attributes) == 1 {
+						isMarker = true
+					}
+				}
+				if isMarker {
+					flush()
+				}
+				continue
+			}
+			if e.Type == sdkutil.EventTypeMessage {
+				seg = append(seg, e)
+			}
+		}
+		flush()
 	}
 	if !o.OK {
 		if len(akash) > 0 {
@@ -425,6 +474,10 @@ func (m *vMonC16) judgeLifecycle(h *vHist, o *vTxObs, kind string, lifecycle []s
 				continue
 			}
 			st := p.State
+			closedSeen := 0
+			if p.State == dtypes.GroupInsufficientFunds {
+				closedSeen = 1
+			}
 			for _, ev := range evs {
 				switch ev {
 				case "paused":
@@ -438,9 +491,15 @@ func (m *vMonC16) judgeLifecycle(h *vHist, o *vTxObs, kind string, lifecycle []s
 					}
 					st = dtypes.GroupOpen
 				case "closed":
-					if st == dtypes.GroupClosed {
+					// insufficient_funds -> closed is a transition of its own
+					// (close-group on a group that an overdraft closed earlier in
+					// the same tx); which of the two terminal states an earlier
+					// closed event led to is not visible here, so a second closed
+					// event is admitted exactly when the group ends up closed
+					if st == dtypes.GroupClosed && (closedSeen >= 2 || n.State != dtypes.GroupClosed || p.State == dtypes.GroupClosed) {
 						spurious(key, "group-closed", "it was already closed")
 					}
+					closedSeen++
 					st = dtypes.GroupClosed
 				}
 			}
